@@ -110,6 +110,40 @@ class World(object):
                     if hasattr(type(sec), op['name']):
                         setattr(sec, op['name'], copy.deepcopy(op['value']))
                         self._count_mutation()
+            elif name == 'list_op':
+                # the public changes / files lists edited in place
+                i, t = self._tree(op['t'])
+
+                if t is not None:
+                    touched = i
+                    lst = t.changes
+
+                    if op['level'] == 'files' and t.changes:
+                        lst = t.changes[op['c'] % len(t.changes)].files
+
+                    if op['what'] == 'reverse':
+                        lst.reverse()
+                    elif op['what'] == 'pop' and lst:
+                        lst.pop(op['k'] % len(lst))
+                    elif op['what'] == 'swap' and len(lst) >= 2:
+                        k = op['k'] % (len(lst) - 1)
+                        lst[k], lst[k + 1] = lst[k + 1], lst[k]
+                    elif op['what'] == 'rotate' and lst:
+                        lst.append(lst.pop(0))
+
+                    self._count_mutation()
+            elif name == 'self_assign':
+                i, t = self._tree(op['t'])
+
+                if t is not None:
+                    observed = i
+                    sec = self._section(t, op['path'])
+
+                    if hasattr(type(sec), op['name']):
+                        v = getattr(sec, op['name'])
+
+                        if v is not None:
+                            setattr(sec, op['name'], v)
             elif name == 'mutate_meta':
                 i, t = self._tree(op['t'])
 
@@ -141,10 +175,26 @@ class World(object):
 
                 if t is not None:
                     observed = i
-                    a = self._serialise(t, False)
-                    b = self._serialise(t, False)
-                    c = self._serialise(t, True)
-                    d = self._serialise(t, True)
+                    outcomes = []
+
+                    # the shared writer goes first, so that a failing
+                    # serialisation also passes through it
+                    for shared in (True, False, True, False):
+                        try:
+                            outcomes.append(self._serialise(t, shared))
+                        except Exception as e:
+                            outcomes.append(type(e).__name__)
+
+                    c, a, d, b = outcomes
+
+                    if not isinstance(a, bytes):
+                        if not (a == b == c == d):
+                            problems.append((
+                                'serialising-twice-differs',
+                                'a failing serialisation gave %r' %
+                                (outcomes,)))
+
+                        raise ValueError('not serialisable')
 
                     try:
                         fresh = trees.rebuild(trees.snapshot(t)).to_bytes()
@@ -217,6 +267,15 @@ class World(object):
                     r1 = (t == u)
                     r2 = (t != u)
                     before_u = self.snaps[j]
+
+                    want = (trees.snapshot(t) == trees.snapshot(u))
+
+                    if r1 != want:
+                        problems.append((
+                            'equality-depends-on-history',
+                            '== gave %r for trees whose options and '
+                            'contents are %s' % (r1, 'equal' if want
+                                                 else 'different')))
 
                     if r1 == r2:
                         problems.append(('eq-ne-inconsistent',
@@ -447,7 +506,9 @@ def machine(st, target):
                        'value': a[1]})
 
         @rule(t=_idx, path=_path, key=hs.sampled_from(['k', 'stats', 'new']),
-              value=hs.sampled_from([1, 'v', [1, 2], {'a': {}}]))
+              value=hs.sampled_from([1, 'v', [1, 2], {'a': {}},
+                                     {'n': {1: 'int key', 2: {3: 'deep'}}},
+                                     [{'z': 1, 'a': 2}]]))
         def mutate_meta(self, t, path, key, value):
             self.step({'op': 'mutate_meta', 't': t, 'path': path, 'key': key,
                        'value': value})
@@ -460,6 +521,20 @@ def machine(st, target):
         def mutate_options(self, t, path, which, key, value):
             self.step({'op': 'mutate_options', 't': t, 'path': path,
                        'which': which, 'key': key, 'value': value})
+
+        @rule(t=_idx, level=hs.sampled_from(['changes', 'files']), c=_idx,
+              what=hs.sampled_from(['reverse', 'pop', 'swap', 'rotate']),
+              k=_idx)
+        def list_op(self, t, level, c, what, k):
+            self.step({'op': 'list_op', 't': t, 'level': level, 'c': c,
+                       'what': what, 'k': k})
+
+        @rule(t=_idx, path=_path,
+              name=hs.sampled_from(['meta', 'preamble', 'diff', 'encoding',
+                                    'meta_format', 'preamble_indent']))
+        def self_assign(self, t, path, name):
+            self.step({'op': 'self_assign', 't': t, 'path': path,
+                       'name': name})
 
         @rule(t=_idx)
         def to_bytes(self, t):
@@ -517,8 +592,9 @@ def checks():
             rule='rule-based state machine over up to 4 live trees, one '
                  'shared DiffXDOMReader and one shared DiffXDOMWriter: '
                  'construct (attributes / defaults), add_change, add_file, '
-                 'assign typed attributes, mutate meta and options in '
-                 'place, to_bytes (direct and via the shared writer, twice '
+                 'assign typed attributes (also their own value), mutate '
+                 'meta, options and the changes/files lists in place, '
+                 'to_bytes (direct and via the shared writer, twice '
                  'each), parse own bytes and foreign files (from_bytes and '
                  'the shared reader), generate_stats, ==/!=, repr; after '
                  'every step: all trees not operated on are unchanged, '
